@@ -69,7 +69,7 @@ theorem size_le_max (p : List UInt8) (cap : Nat) (o : Pkt) (ho : parse p = some 
     simp only [ipOK, Bool.and_eq_true, maxReplySize] at h1
     have hl : out.length ≤ 1048 := by
       exact of_decide_eq_true h1.1.2
-    refine ⟨by simp only [maxRejectPacketSize]; omega, ?_, by omega⟩
+    refine ⟨by simp only [maxRejectPacketSize, Gen.iputil_MaxRejectPacketSize]; omega, ?_, by omega⟩
     intro hc; rw [hc] at hr; simp [parse] at hr
 
 /-- `rejectOutside` sends exactly what `CreateRejectPacket` built: its empty / too-big guards never fire. -/
@@ -120,5 +120,20 @@ example : (parse icmpErr4).map isIcmpError = some true := by decide
 example : createRejectPacket icmpErr4 2048 = .ok none := by decide
 -- the same packet as an echo request is answered
 example : (createRejectPacket (icmpErr4.set 20 8) 2048).bind (fun r => .ok (r.map List.length)) = .ok (some 56) := by decide
+
+-- A TCP RST is itself answered with a RST (netfilter's nf_reject does not do that: "no RST for RST").
+-- The property lists the cases in which no reply may be produced — non-first fragments, ICMP error
+-- messages, small buffers — and an incoming RST is not among them; "netfilter-style" qualifies the sequence
+-- numbers, which `wellformed` proves for every flag combination, RST included. So this is documented
+-- behaviour, not a violation of C21. (Operational note for the maintainers: two nebula nodes that both
+-- reject and both drop the flow would bounce resets off each other until one side stops rejecting.)
+example : (createRejectPacket (syn4.set 33 0x04) 40).bind (fun r => .ok (r.map (fun o => o.getD 33 0))) = .ok (some 0x14) := by
+  decide
+
+-- the regenerated `ipv4PseudoheaderChecksum` and the hand-written model agree where the uint32 accumulator wraps
+example : (Gen.iputil_ipv4PseudoheaderChecksum 255#8 255#8 255#8 255#8 255#8 255#8 255#8 255#8 0xffffffff#32 0xfffffffe#32).toNat =
+    ipv4Pseudo [255, 255, 255, 255] [255, 255, 255, 255] 0xffffffff 0xfffffffe := by decide
+example : (Gen.iputil_ipv4PseudoheaderChecksum 10#8 0#8 0#8 1#8 10#8 0#8 0#8 2#8 6#32 20#32).toNat =
+    ipv4Pseudo [10, 0, 0, 1] [10, 0, 0, 2] 6 20 := by decide
 
 end Nebula.Props.C21
